@@ -16,6 +16,7 @@ inductive Diag where
   | notInOneImpl         -- "Not found in one of the impls"
   | genericsMismatch     -- "Generics don't match between impls"
   | notSupported         -- "Not supported"
+  | visMismatch          -- "Visibility doesn't match between impls" (inherent mode, fix 48b34ff)
   deriving Repr, DecidableEq
 
 def Diag.message : Diag → String
@@ -27,6 +28,7 @@ def Diag.message : Diag → String
   | .notInOneImpl => "Not found in one of the impls"
   | .genericsMismatch => "Generics don't match between impls"
   | .notSupported => "Not supported"
+  | .visMismatch => "Visibility doesn't match between impls"
 
 inductive ItemKind where | const | type | fn | other
   deriving Repr, DecidableEq
@@ -134,7 +136,20 @@ def validateTraitImpls (trait_ : T) (impls : List T) : Except Diag Unit :=
   | .error d => .error d
   | .ok () => firstError (impls.map (fun item => compareTraitItems (traitItems trait_) (implItemSigs item)))
 
-/-- `validate_inherent_impls` (validate.rs:39-57) for one family -/
+/-- (kind, identifier, visibility) of an impl item -/
+def implItemVis : T → Option (ItemKind × String × T)
+  | .node "ImplItem::Const" [] [_, v, _, .node "Ident" [x] [], _, _, _] => some (.const, x, v)
+  | .node "ImplItem::Type" [] [_, v, _, .node "Ident" [x] [], _, _] => some (.type, x, v)
+  | .node "ImplItem::Fn" [] [_, v, _, sig, _] => some (.fn, sigIdent sig, v)
+  | _ => none
+
+/-- `compare_inherent_visibility`: an item of the first block and an item of the same kind and name in another block must
+    have the same visibility (the generated inherent impl has one visibility per item) -/
+def compareInherentVis (first second : List T) : Except Diag Unit :=
+  if (first.filterMap implItemVis).any (fun f => (second.filterMap implItemVis).any (fun s =>
+      decide (f.1 = s.1) && f.2.1 == s.2.1 && f.2.2 != s.2.2)) then .error .visMismatch else .ok ()
+
+/-- `validate_inherent_impls` for one family: kinds, then the item sets against the first block, then the visibilities -/
 def validateInherentImpls (impls : List T) : Except Diag Unit :=
   let headers := impls.map (fun item =>
     match implTraitPath item with
@@ -145,7 +160,10 @@ def validateInherentImpls (impls : List T) : Except Diag Unit :=
   | .ok () =>
       match impls with
       | [] => .ok ()
-      | first :: rest => firstError (rest.map (fun item => compareInherentItems (implItemSigs first) (implItemSigs item)))
+      | first :: rest =>
+          match firstError (rest.map (fun item => compareInherentItems (implItemSigs first) (implItemSigs item))) with
+          | .error d => .error d
+          | .ok () => firstError (rest.map (fun item => compareInherentVis (implItems first) (implItems item)))
 
 /-- `ImplGroups::new` (lib.rs:985-1001): every family in order -/
 def validateAll (trait_ : Option T) (families : List (List T)) : Except Diag Unit :=
